@@ -1065,6 +1065,7 @@ func (h *c10Hist) put(k c10Key, ttl int, bm string, ans []string, unkeyed bool) 
 	}
 	host := h.spell(k.name)
 	verb := "put"
+	prevObj, _ := w.ctrl.dnsCache.Load(k.key())
 	// the update batch of this put's publish fails (if it sends one). Not in real-loops mode: there the worker
 	// repairs it concurrently with the lookup that queued the refresh, which has no line of its own.
 	inject := h.r.Chance(0.04) && !w.real
